@@ -418,18 +418,69 @@ Ltac ltb_eq :=
   match goal with |- (?a <? ?b) = (?c <? ?d) =>
     destruct (Nat.ltb_spec a b), (Nat.ltb_spec c d); auto; try lia end.
 
+Lemma w1_frame : forall s s' p, InvE s -> p <= N -> wc (th s' p) = wc (th s p) ->
+  (forall y, helper y -> parent y = Some p -> y <> 0 -> p < y -> pendingb s' p y = pendingb s p y) ->
+  wc (th s' p) = Z.of_nat (npending s' p).
+Proof.
+  intros s s' p I Hp Hwc Hpd. rewrite Hwc, (e_w1 _ _ _ I p Hp). f_equal.
+  unfold WorkersInv.npending. apply count_ext. intros y Hy.
+  apply in_children in Hy. destruct Hy as (Hy & Hyp). symmetry. apply Hpd; auto.
+  - unfold WorkersInv.helper in Hy; lia.
+  - now destruct (parent_le y p Hy Hyp).
+Qed.
+
+Lemma w1_enter_round : forall s s' p, InvE s -> p <= N ->
+  se (th s' p) = S (se (th s p)) -> wc (th s' p) = nchildren N parent p ->
+  (forall y, ae (th s' y) = ae (th s y)) ->
+  wc (th s' p) = Z.of_nat (npending s' p).
+Proof.
+  intros s s' p I Hp Hse Hwc Hae. rewrite Hwc. unfold nchildren, WorkersInv.npending. f_equal.
+  symmetry. apply count_all. intros y Hy. apply in_children in Hy. destruct Hy as (Hy & Hyp).
+  unfold pendingb. apply Nat.ltb_lt. rewrite Hae, Hse.
+  destruct (e_g2 _ _ _ I y Hy) as (_ & ? & _). pose proof (inv_child_le s y p I Hy Hyp). lia.
+Qed.
+
+Lemma w1_pop_ack : forall s s' p f l, InvE s -> p <= N ->
+  qu s p = CStopAck f :: l -> qu s' p = l -> wc (th s' p) = (wc (th s p) - 1)%Z ->
+  se (th s' p) = se (th s p) -> (forall y, ae (th s' y) = ae (th s y)) ->
+  wc (th s' p) = Z.of_nat (npending s' p).
+Proof.
+  intros s s' p f l I Hp Hq Hq' Hwc Hse Hae.
+  destruct (ack_head_facts s p f l I Hp Hq) as (Hf & Hfp & Ha0 & Haf & _ & _ & Hpd & _).
+  rewrite Hwc, (e_w1 _ _ _ I p Hp). unfold WorkersInv.npending.
+  assert (Hin : In f (children p)) by (apply in_children; auto).
+  rewrite (count_flip (pendingb s p) (pendingb s' p) (children p) f (NoDup_children _ _ _) Hin Hpd).
+  - lia.
+  - unfold pendingb. rewrite Hae, Hse, Hq', Ha0. apply Nat.ltb_ge. lia.
+  - intros y Hy Hne. unfold pendingb. rewrite Hae, Hse, Hq', Hq, acks_cons. simpl.
+    destruct (Nat.eqb_spec f y); [congruence|]. reflexivity.
+Qed.
+
 Lemma step_w1 : forall s lb s', InvE s -> lstep s lb = Some s' ->
   forall p, p <= N -> wc (th s' p) = Z.of_nat (npending s' p).
 Proof.
   intros s lb s' I H p Hp.
-  pose proof (e_w1 _ _ _ I p Hp) as W1.
   step_inv_fine H.
-  all: try (crunch; rewrite W1; f_equal; unfold WorkersInv.npending; apply count_ext; intros y Hy;
-            apply in_children in Hy; destruct Hy as (Hy & Hyp);
-            assert (Hy0 : y <> 0) by (unfold WorkersInv.helper in Hy; lia);
-            destruct (parent_le y p Hy Hyp) as (_ & Hlt);
-            unfold pendingb; crunch; use_eqs; rewrite ?acks_app, ?acks_purge, ?acks_cons;
-            cbn [is_ack_from]; try reflexivity; try lia; try ltb_eq; fail).
+  all: try pcs_facts I.
+  all: try match goal with w : fwd |- _ => destruct w end.
+  all: try match goal with c : cmd |- _ => destruct c end.
+  all: try (apply (w1_frame s _ p I Hp);
+            [ crunch; reflexivity
+            | intros y Hy Hyp Hy0 Hlt; unfold pendingb; crunch; use_eqs;
+              rewrite ?acks_app, ?acks_purge, ?acks_cons; cbn [is_ack_from fwd_cmd fwd_purge];
+              rewrite ?acks_purge, ?acks_nil; eqb_cases;
+              try reflexivity; try lia; try ltb_eq ]; fail).
+  all: try exact (e_w1 _ _ _ I p Hp).
+  all: try (ack_facts I; phase_facts' I; lia).
+  all: match goal with |- context [set_th _ ?t _] => destruct (Nat.eq_dec p t) as [->|Hne] end.
+  all: try (eapply (w1_enter_round s); eauto; intros; crunch; auto; fail).
+  all: try (eapply (w1_pop_ack s); eauto; intros; crunch; auto; fail).
+  all: try (apply (w1_frame s _ p I Hp);
+            [ crunch; reflexivity
+            | intros y Hy Hyp Hy0 Hlt; unfold pendingb; crunch; use_eqs;
+              rewrite ?acks_app, ?acks_purge, ?acks_cons; cbn [is_ack_from fwd_cmd fwd_purge];
+              rewrite ?acks_purge, ?acks_nil; eqb_cases;
+              try reflexivity; try lia; try ltb_eq ]; fail).
   Show.
 Abort.
 End P.
